@@ -1,6 +1,6 @@
 """C03 - cw3: a proposal's status always equals the outcome its ballots imply."""
 from ..engine import show
-from ..idioms import dispatch, entry_points, update_base, loaded_from, field_of, nf, walk
+from ..idioms import dispatch, entry_points, update_base, loaded_from, field_of, nf, walk, possible_variants
 from .cw3common import (SENDER, BLOCK, CS, IS_PASSED, IS_REJECTED, IS_EXPIRED, STATUS, VOTE, CONTRACTS, status, items,
                         cs_call, exec_paths, is_expired_cond, cs_is_passed, cs_not_passed, stored_status_in, cs_term)
 from . import C04
@@ -166,10 +166,17 @@ def check_table(ctx):
     n = 0
     for p in ps:
         is_open = passed = rejected = expired = None
+        pv = possible_variants(ctx, p, stored, STATUS)
+        if pv == {"Open"}:
+            is_open = True
+        elif pv is not None and "Open" not in pv:
+            is_open = False
         for c in p.conds:
             t, o = c[0], c[1]
             if t[0] == "cmp" and t[1] == "eq" and set((t[2], t[3])) == set((stored, status("Open"))):
                 is_open = o
+            elif t == stored and isinstance(o, str):
+                pass            # a `match` / `matches!` on the stored status: accounted for by possible_variants above
             elif t[0] == "call" and t[1] == IS_PASSED and t[2][0] == SELF:
                 passed = o
             elif t[0] == "call" and t[1] == IS_REJECTED and t[2][0] == SELF:
